@@ -6,8 +6,8 @@
    (time.Now()) is the parameter [p_now]; timeNow() (used by markReady when an abort makes a change ready) is [p_mock].
    The abort that Prune performs on an old unready change (Change.AbortUnreadyLanes) is modelled for changes whose tasks
    are all in the default lane and none in Wait: then it visits every task of the change in task order
-   (abortLanes -> abortTasks) and sets Do->Hold, Doing->Abort, Done->Undo, with the ready detection of
-   Change.detectChangeReady after every write (including its panic). The general lane closure is C01's subject. *)
+   (abortLanes -> abortTasks) and sets Do->Hold, Doing->Abort, Done->Undo; readiness is detected once afterwards.
+   The general lane closure is C01's subject. *)
 From Coq Require Import List NArith ZArith Bool.
 Import ListNotations.
 Open Scope Z_scope.
@@ -80,22 +80,10 @@ Definition ready_count (l : list pchange) : Z :=
 (* ---- the abort of one change in the default lane (see the header) *)
 Definition abort1 (s : N) : N := if (s =? 2)%N then 1%N else if (s =? 3)%N then 5%N else if (s =? 4)%N then 6%N else s.
 
-(* statuses of the tasks of the change in task order: [done_] already visited, [todo] still to visit; [marked] = the
-   ready channel is closed. Result: final statuses, marked, panicked *)
-Fixpoint abort_walk (done_ todo : list N) (marked : bool) : list N * bool * bool :=
-  match todo with
-  | [] => (done_, marked, false)
-  | s :: r =>
-      let s' := abort1 s in
-      if (s' =? s)%N then abort_walk (done_ ++ [s']) r marked
-      else if Bool.eqb (status_ready s) (status_ready s') then abort_walk (done_ ++ [s']) r marked
-      else
-        (* detectChangeReady(t): every other task ready? *)
-        if forallb status_ready done_ && forallb status_ready r then
-          if marked && negb (status_ready s') then (done_ ++ s' :: r, marked, true)   (* unexpectedly became unready *)
-          else abort_walk (done_ ++ [s']) r true
-        else abort_walk (done_ ++ [s']) r marked
-  end.
+(* the statuses of the tasks of the change, in task order, after the abort; since the fix d3068df of /repo readiness is
+   evaluated once, after the whole abort has been applied (Change.deferReadyDetection): the change is marked ready
+   (ready time := timeNow()) exactly when every task is then ready - in particular a change without tasks *)
+Definition abort_statuses (sts : list N) : list N := map abort1 sts.
 
 Definition task_status (s : pstate) (id : N) : N :=
   match find (fun t => (pt_id t =? id)%N) (ps_tasks s) with Some t => pt_status t | None => 0%N end.
@@ -108,13 +96,13 @@ Fixpoint set_statuses (ids : list N) (sts : list N) (l : list ptask) : list ptas
   end.
 
 Record result := mkRes { r_changes : list pchange; r_tasks : list ptask; r_warnings : list pexp; r_notices : list pexp;
-                         r_aborted : list N; r_panic : bool }.
+                         r_aborted : list N }.
 
-(* apply the decisions in visiting order. A panic stops Prune where it is. *)
+(* apply the decisions in visiting order *)
 Fixpoint apply (p : params) (vs : list (pchange * decision)) (chs : list pchange) (tks : list ptask) (ab : list N)
-    : list pchange * list ptask * list N * bool :=
+    : list pchange * list ptask * list N :=
   match vs with
-  | [] => (chs, tks, ab, false)
+  | [] => (chs, tks, ab)
   | (c, d) :: r =>
       match d with
       | Keep => apply p r chs tks ab
@@ -125,14 +113,14 @@ Fixpoint apply (p : params) (vs : list (pchange * decision)) (chs : list pchange
       | AbortIt =>
           let sts := map (fun id => match find (fun t => (pt_id t =? id)%N) tks with Some t => pt_status t | None => 0%N end)
                          (pc_tasks c) in
-          let '(sts', marked, panic) := abort_walk [] sts false in
+          let sts' := abort_statuses sts in
+          let marked := forallb status_ready sts' in
           let tks' := set_statuses (pc_tasks c) sts' tks in
           let chs' := map (fun x => if (pc_id x =? pc_id c)%N
                                     then mkPC (pc_id x) (pc_spawn x) (if marked then Some (p_mock p) else pc_ready x)
                                               (pc_tasks x) (pc_attrs x)
                                     else x) chs in
-          if panic then (chs', tks', ab ++ [pc_id c], true)
-          else apply p r chs' tks' (ab ++ [pc_id c])
+          apply p r chs' tks' (ab ++ [pc_id c])
       end
   end.
 
@@ -141,14 +129,12 @@ Definition expired (p : params) (x : pexp) : bool := x_last x + x_expire x <? p_
 (* State.Prune with the changes visited in [order] *)
 Definition prune_with (p : params) (order : list pchange) (s : pstate) : result :=
   let vs := visit p (ready_count order) order in
-  let '(chs, tks, ab, panic) := apply p vs (ps_changes s) (ps_tasks s) [] in
+  let '(chs, tks, ab) := apply p vs (ps_changes s) (ps_tasks s) [] in
   let ws := filter (fun x => negb (expired p x)) (ps_warnings s) in
   let ns := filter (fun x => negb (expired p x)) (ps_notices s) in
-  if panic then mkRes chs tks ws ns ab true
-  else
-    (* the last loop: tasks without a (remaining) change, spawned before the prune limit *)
-    let linked (t : ptask) := existsb (fun c => (pc_id c =? pt_change t)%N) chs in
-    mkRes chs (filter (fun t => linked t || negb (pt_spawn t <? prune_limit p)) tks) ws ns ab false.
+  (* the last loop: tasks without a (remaining) change, spawned before the prune limit *)
+  let linked (t : ptask) := existsb (fun c => (pc_id c =? pt_change t)%N) chs in
+  mkRes chs (filter (fun t => linked t || negb (pt_spawn t <? prune_limit p)) tks) ws ns ab.
 
 Definition prune (p : params) (s : pstate) : result := prune_with p (sort_changes (ps_changes s)) s.
 
@@ -167,8 +153,7 @@ Definition mismatch (c : case) : bool :=
   match c with
   | Case p s chs tks ws ns panicked =>
       let r := prune p s in
-      if r_panic r || panicked then negb (Bool.eqb (r_panic r) panicked)
-      else negb (
+      panicked || negb (
         same_set (map pc_id (r_changes r)) (map fst chs)
         && forallb (fun c => existsb (fun o => (fst o =? pc_id c)%N && Bool.eqb (snd o) (is_some (pc_ready c))) chs) (r_changes r)
         && same_set (map pt_id (r_tasks r)) (map fst tks)
